@@ -20,7 +20,7 @@ as an argument. Reads outside the matrix give `0` (the Rust code would panic; th
 feeds rectangular data, and says which shapes the real code rejects).
 
 Constants that have no meaning in an arbitrary field are parameters, bundled in `Consts`:
-`tol = 1e-8`, `eps0 = 1e-8`, `ten = 10`, `fmin = f64::MIN`.
+`tol = 1e-8`, `eps0 = 1e-8`, `ten = 10`.
 -/
 
 namespace Sage.C15
@@ -37,8 +37,6 @@ structure Consts (α : Type) where
   eps0 : α
   /-- `10.0` (`eps *= 10.0`) -/
   ten : α
-  /-- `f64::MIN`, the initial "largest value" of the pivot search -/
-  fmin : α
 
 section generic
 variable {α : Type} [Add α] [Sub α] [Mul α] [Div α] [Neg α] [OfNat α 0] [OfNat α 1] [NatCast α]
@@ -120,11 +118,12 @@ def swapRows (m : Mat α) (i j : Nat) : Mat α :=
   let rj := m.getD j []
   (m.set i rj).set j ri
 
-/-- pivot search of `echelon`: the LAST row in `h..m` holding the largest *signed* value of column
-    `k` that is `>= f64::MIN`; `(0, f64::MIN)` if there is none (NaN / -inf column) -/
-def findMax (fmin : α) (left : Mat α) (k h m : Nat) : Nat × α :=
+/-- pivot search of `echelon` (as repaired: textbook partial pivoting): the LAST row in `h..m` whose
+    entry in column `k` has the largest MAGNITUDE (`>=` on `abs`); `(h, 0.0)` if the segment is empty.
+    Returns the row and that magnitude. -/
+def findMax (left : Mat α) (k h m : Nat) : Nat × α :=
   (List.range' h (m - h)).foldl
-    (fun mx i => let v := get left i k; if mx.2 ≤ v then (i, v) else mx) (0, fmin)
+    (fun mx i => let v := absv (get left i k); if mx.2 ≤ v then (i, v) else mx) (h, 0)
 
 /-- new left row `i` when clearing column `k` with pivot row `hl`: entries before `k` untouched,
     entry `k` set to `0.0`, entries after `k`: `x -= hl[j] * factor` -/
@@ -144,19 +143,19 @@ def clearBelow (h k : Nat) (left right : Mat α) : Mat α × Mat α :=
    right.mapIdx fun i r => if h < i then elimRight hr (get left i k / p) r else r)
 
 /-- `echelon`: `fuel` bounds the `while h < m && k < n` loop (`k` grows every iteration) -/
-def echelonLoop (fmin : α) (m n : Nat) : Nat → Nat → Nat → Mat α × Mat α → Mat α × Mat α
+def echelonLoop (m n : Nat) : Nat → Nat → Nat → Mat α × Mat α → Mat α × Mat α
   | 0, _, _, st => st
   | fuel + 1, h, k, (left, right) =>
     if h < m ∧ k < n then
-      let i := (findMax fmin left k h m).1
-      if isZero (get left i k) then echelonLoop fmin m n fuel h (k + 1) (left, right)
+      let i := (findMax left k h m).1
+      if isZero (get left i k) then echelonLoop m n fuel h (k + 1) (left, right)
       else
         let sw := if h ≠ i then (swapRows left h i, swapRows right h i) else (left, right)
-        echelonLoop fmin m n fuel (h + 1) (k + 1) (clearBelow h k sw.1 sw.2)
+        echelonLoop m n fuel (h + 1) (k + 1) (clearBelow h k sw.1 sw.2)
     else (left, right)
 
-def echelon (fmin : α) (n : Nat) (st : Mat α × Mat α) : Mat α × Mat α :=
-  echelonLoop fmin st.1.length n n 0 0 st
+def echelon (n : Nat) (st : Mat α × Mat α) : Mat α × Mat α :=
+  echelonLoop st.1.length n n 0 0 st
 
 /-- first entry of a row that is not `== 0.0` -/
 def firstNZ : List α → Nat → Option (Nat × α)
@@ -198,7 +197,7 @@ def leftSolved (tol : α) (n : Nat) (left : Mat α) : Bool :=
 
 /-- `Gauss::solve_inner`; `n = left.cols` -/
 def solveInner (c : Consts α) (n : Nat) (left right : Mat α) (eps : α) : Option (Mat α) :=
-  let st := backfill (reduce (echelon c.fmin n (fillZero eps left, right)))
+  let st := backfill (reduce (echelon n (fillZero eps left, right)))
   if leftSolved c.tol n st.1 then some st.2 else none
 
 /-- `Gauss::solve`: `while eps <= 1.0 { try; eps *= 10.0 }` (fuel: the loop runs 9 times) -/
@@ -304,14 +303,14 @@ end generic
 
 /-- the loop constants as `f64` -/
 def constsF : Consts Float :=
-  { tol := 1E-8, eps0 := 1E-8, ten := 10.0, fmin := Float.ofBits 0xFFEFFFFFFFFFFFFF }
+  { tol := 1E-8, eps0 := 1E-8, ten := 10.0 }
 
 /-- exact value of a finite float (0 for NaN/∞: callers check finiteness first) -/
 def ratOfFloat (x : Float) : Rat := (Sage.Proto.ratOfF64Bits x.toBits.toNat).getD 0
 
 /-- the same constants as exact rationals (the exact values of the `f64` constants) -/
 def constsQ : Consts Rat :=
-  { tol := ratOfFloat 1E-8, eps0 := ratOfFloat 1E-8, ten := 10, fmin := ratOfFloat constsF.fmin }
+  { tol := ratOfFloat 1E-8, eps0 := ratOfFloat 1E-8, ten := 10 }
 
 /-! ## `score_psms` at `Float`: the 20-column feature transform, the fit, the guard, the scores -/
 
